@@ -505,6 +505,13 @@ func parentMain(p *Prop, tier string) int {
 		}
 		fresh = append(fresh, v)
 	}
+	if os.Getenv("VERIF_KEYS_FILE") != "" {
+		var sb strings.Builder
+		for k := range seenKey {
+			sb.WriteString(k + "\n")
+		}
+		os.WriteFile(os.Getenv("VERIF_KEYS_FILE"), []byte(sb.String()), 0o644)
+	}
 	exit := 0
 	if len(fresh) > 0 {
 		exit = 1
